@@ -49,3 +49,8 @@ package jschema
 //@   requires g != nil
 //@   nopanic
 //@   ensures result == beq(g.data, "null")
+
+// a document is an arbitrary lexeme source here (the JSON document has its own contracts in formats/json)
+//@ interface Document.NextLexeme(self)
+//@   maypanic
+//@   modifies *
